@@ -113,7 +113,13 @@ pub fn cube(run: &Run) -> Acc {
     a1.merge(a2)
 }
 
-pub const CONSTRUCTS: [&str; 12] = [
+pub const CONSTRUCTS: [&str; 18] = [
+    "wide-array-wildcard",
+    "wide-array-filter",
+    "wide-object-descendant",
+    "long-name",
+    "long-string-literal-regex",
+    "many-segments-wildcard-fanout",
     "parens",
     "not-parens",
     "nested-filters",
@@ -161,6 +167,20 @@ pub fn rung(construct: &str, d: usize) -> (String, Value) {
         "descendant-wildcard-on-nested-arrays" => ("$..*".to_string(), nested_array(d)),
         "descendant-wildcard-on-nested-objects" => ("$..a".to_string(), nested_object(d)),
         "filter-descendant-on-nested-arrays" => ("$[?@..[0]]".to_string(), nested_array(d)),
+        // size ladders: d is a width / length (x16: the rungs 8..32768 give 128..524288 elements or characters)
+        "wide-array-wildcard" => ("$[*]".to_string(), Value::Array((0..d * 16).map(|i| json!(i)).collect())),
+        "wide-array-filter" => ("$[?@>1&&@<5||@==7]".to_string(), Value::Array((0..d * 16).map(|i| json!(i % 10)).collect())),
+        "wide-object-descendant" => ("$..[?@.a]".to_string(), Value::Object((0..d * 4).map(|i| (format!("k{}", i), json!({"a": i}))).collect())),
+        "long-name" => (format!("$['{}']", "n".repeat(d * 16)), json!({"n": 1})),
+        "long-string-literal-regex" => (format!("$[?search(@,'{}')]", "a".repeat(d)), json!(["a".repeat(d + 1), "b"])),
+        // every segment multiplies the nodelist by 2 up to 2^14 nodes, then keeps it
+        "many-segments-wildcard-fanout" => (format!("${}", "[0,1]".repeat(d.min(14))), {
+            let mut v = json!(1);
+            for _ in 0..d.min(14) {
+                v = json!([v.clone(), v]);
+            }
+            v
+        }),
         _ => panic!("unknown construct {}", construct),
     }
 }
